@@ -685,6 +685,18 @@ class Dataset(AbstractDataset, dict, OpMixin, GetSetDelAttrMixin):
         else:
             values = np.asarray(values)
 
+        # nothing to take from an empty axis: every variable fills itself (DimArray.reindex_axis)
+        if self.axes[axis].size == 0 and values.size > 0:
+            name = self.axes[axis].name
+            dataset = self.__class__()
+            for k in self.keys():
+                v = self[k]
+                if name in v.dims:
+                    v = v.reindex_axis(values, axis=name, fill_value=fill_value, raise_error=raise_error, method=method)
+                dataset[k] = v
+            dataset.attrs.update(self.attrs)
+            return dataset
+
         # take axis, do not raise error
         if method == 'right':
             # same neighbour as DimArray.reindex_axis (searchsorted side)
